@@ -130,8 +130,8 @@ class HDF5DataFrame(DataFrame):
 
         :param name: name of field to be dropped
         """
-        del self._columns[name]
         del self._h5group[name]
+        del self._columns[name]
 
     def create_group(self,
                      name: str):
